@@ -680,11 +680,11 @@ Proof.
       apply in_map_iff. exists g; auto.
     + intros Hx. apply in_map_iff in Hx. destruct Hx as [g [<- Hg]].
       pose proof (group_nonempty (map (fun r : row => (r, r)) R)) as NE.
-      rewrite Forall_forall in NE. specialize (NE g Hg).
-      destruct (snd g) as [|m ms] eqn:E; [congruence|].
-      assert (Hm : In (fst g, m) (map (fun r : row => (r, r)) R)).
-      { apply (group_member_key _ g m Hg). rewrite E; simpl; auto. }
-      apply in_map_iff in Hm. destruct Hm as [r [Er Hr]]. inversion Er; subst. congruence.
+      rewrite Forall_forall in NE. specialize (NE g Hg). destruct g as [k ms0]. cbn [fst snd] in *.
+      destruct ms0 as [|m ms]; [congruence|].
+      assert (Hm : In (k, m) (map (fun r : row => (r, r)) R)).
+      { apply (group_member_key _ (k, m :: ms) m Hg). simpl; auto. }
+      apply in_map_iff in Hm. destruct Hm as [r [Er Hr]]. inversion Er; subst. exact Hr.
 Qed.
 
 (* ================================================================== filter_null_join_keys *)
@@ -709,7 +709,7 @@ Proof.
   intros kl kr rest wr L R on. unfold left_join. apply flat_map_ext_in. intros l _.
   rewrite filter_filter. rewrite (filter_ext_in' (on l) (fun x => negb (is_null (kr x)) && on l x)); auto.
   intros r _. unfold on. destruct (kr r); cbn [is_null negb andb]; auto.
-  rewrite cmp3_null_r. reflexivity.
+  unfold eq3. rewrite cmp3_null_r. reflexivity.
 Qed.
 
 (* ================================================================== decorrelate_predicate_subquery *)
@@ -739,4 +739,131 @@ Proof.
   induction vs as [|v vs IH]; [reflexivity|].
   unfold in3 in *. cbn [map any3 fold_right existsb hd]. fold (any3 (map (eq3 (x l)) vs)).
   rewrite holds_or3, IH. reflexivity.
+Qed.
+
+(* ================================================================== the syntactic "only references one side" test *)
+Lemma mapM_ext_in : forall {A B} (f g : A -> res B) l, (forall x, In x l -> f x = g x) -> mapM f l = mapM g l.
+Proof.
+  induction l as [|a l IH]; intros H; [reflexivity|]. cbn [mapM].
+  rewrite (H a (or_introl eq_refl)), IH; auto. intros; apply H; simpl; auto.
+Qed.
+Lemma lookup_left : forall l x en dp i,
+  (if dp <=? 0 then (0 <=? i) && (i <? len l) else true) = true ->
+  lookup ((l ++ x) :: en) dp i = lookup (l :: en) dp i.
+Proof.
+  intros l x en dp i H. unfold lookup. destruct (dp <=? 0) eqn:D.
+  - apply Z.leb_le in D. replace (Z.to_nat dp) with 0%nat by lia. cbn [nth_error].
+    apply andb_true_iff in H. destruct H as [H0 H1]. apply Z.leb_le in H0. apply Z.ltb_lt in H1. unfold len in H1.
+    rewrite nth_error_app1 by lia. reflexivity.
+  - apply Z.leb_gt in D. destruct (Z.to_nat dp) as [|k] eqn:K; [lia|]. reflexivity.
+Qed.
+(* has_all_column_refs(predicate, left columns): the predicate evaluates on the joined row l ++ x exactly as on l,
+   whatever x is (a matching right row or the NULL padding) *)
+Theorem cols_all_left_sound : forall f d (en : env) (l x : row) e,
+  cols_all (fun i => (0 <=? i) && (i <? len l)) e = true ->
+  eval_expr f d ((l ++ x) :: en) e = eval_expr f d (l :: en) e.
+Proof.
+  intros f d en l x. induction f as [|f IH]; intros e H; [reflexivity|].
+  destruct e; cbn [cols_all] in H; cbn [eval_expr]; try discriminate H;
+    repeat match goal with
+           | H : _ && _ = true |- _ => apply andb_true_iff in H; destruct H
+           end;
+    repeat match goal with
+           | H : cols_all _ ?a = true |- _ => rewrite (IH a H); clear H
+           end; try reflexivity.
+  - apply lookup_left; auto.
+  - (* EInList *)
+    rewrite (mapM_ext_in (eval_expr f d ((l ++ x) :: en)) (eval_expr f d (l :: en)) l0); [reflexivity|].
+    intros y Hy. apply IH. rewrite forallb_forall in H0. auto.
+  - (* ECase *)
+    assert (E : match els with Some e => eval_expr f d ((l ++ x) :: en) e | None => Ok VNull end =
+                match els with Some e => eval_expr f d (l :: en) e | None => Ok VNull end).
+    { destruct els; auto. }
+    clear H0. induction ws as [|[w t] ws IHws]; [exact E|].
+    cbn [forallb] in H. apply andb_true_iff in H. destruct H as [Hwt Hws]. apply andb_true_iff in Hwt. destruct Hwt as [Hw Ht].
+    rewrite (IH w Hw), (IH t Ht), (IHws Hws). reflexivity.
+  - (* ECoalesce *)
+    induction l0 as [|a l0 IHl]; [reflexivity|].
+    cbn [forallb] in H. apply andb_true_iff in H. destruct H as [Ha Hl].
+    rewrite (IH a Ha), (IHl Hl). reflexivity.
+Qed.
+(* hence the side condition of filter_into_left_join_preserved_sound / filter_into_inner_join_left_sound holds for
+   the reference's evaluation of a predicate that passes the syntactic test *)
+Corollary cols_all_left_filter_side_condition : forall f d (en : env) e (L : rel),
+  (forall l : row, In l L -> cols_all (fun i => (0 <=? i) && (i <? len l)) e = true) ->
+  let p := fun r : row => is_tt (v <- eval_expr f d (r :: en) e;; tv_of_value v) in
+  forall l x : row, In l L -> p (l ++ x) = p l.
+Proof.
+  intros f d en e L H p l x Hl. subst p. cbv beta. f_equal. f_equal. apply cols_all_left_sound. apply H; exact Hl.
+Qed.
+
+(* ================================================================== eliminate_duplicated_expr (ORDER BY a, b, a) *)
+Lemma dir_cmp_eq_dir_indep : forall d d' x y, dir_cmp d x y = Eq -> dir_cmp d' x y = Eq.
+Proof.
+  intros [desc nf] [desc' nf'] x y. unfold dir_cmp.
+  destruct x, y; try (destruct nf, nf'; congruence); try reflexivity;
+    match goal with |- context [vcmp_nn ?a ?b] => generalize (vcmp_nn a b) end;
+    intros c; destruct c, desc, desc'; simpl; congruence.
+Qed.
+Lemma keys_cmp_app : forall ds1 ds2 a1 a2 b1 b2, length a1 = length ds1 -> length b1 = length ds1 ->
+  keys_cmp (ds1 ++ ds2) (a1 ++ a2) (b1 ++ b2) =
+  match keys_cmp ds1 a1 b1 with Eq => keys_cmp ds2 a2 b2 | c => c end.
+Proof.
+  induction ds1 as [|d ds1 IH]; intros ds2 a1 a2 b1 b2 Ha Hb.
+  - destruct a1, b1; try discriminate. reflexivity.
+  - destruct a1 as [|x a1], b1 as [|y b1]; try discriminate. cbn [app keys_cmp].
+    destruct (dir_cmp d x y); auto; try (apply IH; simpl in *; lia).
+Qed.
+Lemma keys_cmp_eq_nth : forall ds a b, keys_cmp ds a b = Eq -> length a = length ds -> length b = length ds ->
+  forall i x y, nth_error a i = Some x -> nth_error b i = Some y -> forall d, dir_cmp d x y = Eq.
+Proof.
+  induction ds as [|d0 ds IH]; intros a b E Ha Hb i x y Hx Hy d.
+  - destruct a; [destruct i; discriminate | discriminate].
+  - destruct a as [|x0 a], b as [|y0 b]; try discriminate. cbn [keys_cmp] in E.
+    destruct (dir_cmp d0 x0 y0) eqn:D; try discriminate.
+    destruct i as [|i]; cbn [nth_error] in Hx, Hy.
+    + inversion Hx; inversion Hy; subst. eapply dir_cmp_eq_dir_indep; eauto.
+    + eapply (IH a b E); simpl in *; try lia; eauto.
+Qed.
+(* a sort key that repeats an earlier key (whatever its direction / NULL placement) never decides a comparison *)
+Theorem duplicated_sort_key_comparator_sound : forall ds1 d ds2 a1 a2 b1 b2 x y i,
+  length a1 = length ds1 -> length b1 = length ds1 -> nth_error a1 i = Some x -> nth_error b1 i = Some y ->
+  keys_cmp (ds1 ++ d :: ds2) (a1 ++ x :: a2) (b1 ++ y :: b2) = keys_cmp (ds1 ++ ds2) (a1 ++ a2) (b1 ++ b2).
+Proof.
+  intros ds1 d ds2 a1 a2 b1 b2 x y i Ha Hb Hx Hy. rewrite !keys_cmp_app by auto.
+  destruct (keys_cmp ds1 a1 b1) eqn:E; auto. cbn [keys_cmp].
+  rewrite (keys_cmp_eq_nth ds1 a1 b1 E Ha Hb i x y Hx Hy d). reflexivity.
+Qed.
+Lemma isort_map_key : forall {A B} (f : A -> B) (leA : A -> A -> bool) (leB : B -> B -> bool),
+  (forall x y, leA x y = leB (f x) (f y)) -> forall l, map f (isort leA l) = isort leB (map f l).
+Proof.
+  intros A B f leA leB H. induction l as [|a l IH]; [reflexivity|]. cbn [isort map]. rewrite <- IH.
+  generalize (isort leA l). induction l0 as [|b l0 IH0]; [reflexivity|]. cbn [insert_sorted map].
+  rewrite <- H. destruct (leA a b); cbn [map]; [reflexivity | rewrite IH0; reflexivity].
+Qed.
+Lemma isort_ext : forall {A} (le1 le2 : A -> A -> bool), (forall x y, le1 x y = le2 x y) -> forall l, isort le1 l = isort le2 l.
+Proof.
+  intros A le1 le2 H. induction l as [|a l IH]; [reflexivity|]. cbn [isort]. rewrite IH.
+  generalize (isort le2 l). induction l0 as [|b l0 IH0]; [reflexivity|]. cbn [insert_sorted]. rewrite H, IH0. reflexivity.
+Qed.
+Lemma sort_by_keys : forall ds (kf : row -> row) (R : rel),
+  map snd (sort_pairs ds (map (fun r => (kf r, r)) R)) = isort (fun r r' => keys_leb ds (kf r) (kf r')) R.
+Proof.
+  intros. unfold sort_pairs.
+  rewrite <- (isort_map_key (fun r => (kf r, r)) (fun r r' => keys_leb ds (kf r) (kf r'))
+                (fun p q : row * row => keys_leb ds (fst p) (fst q)) (fun _ _ => eq_refl) R).
+  rewrite map_map. cbn [snd]. apply map_id.
+Qed.
+(* ORDER BY k1..kn, k_i', kn+1.. (k_i' the same expression as an earlier key) = ORDER BY without the repeated key:
+   the very same output sequence (the reference sort is stable) *)
+Theorem eliminate_duplicated_sort_key_sound : forall ds1 d ds2 (ks1 ks2 : list (row -> value)) k i (R : rel),
+  length ks1 = length ds1 -> nth_error ks1 i = Some k ->
+  let keys := fun (ks : list (row -> value)) (r : row) => map (fun kf => kf r) ks in
+  map snd (sort_pairs (ds1 ++ d :: ds2) (map (fun r => (keys (ks1 ++ k :: ks2) r, r)) R)) =
+  map snd (sort_pairs (ds1 ++ ds2) (map (fun r => (keys (ks1 ++ ks2) r, r)) R)).
+Proof.
+  intros ds1 d ds2 ks1 ks2 k i R Hl Hk keys. rewrite !sort_by_keys. apply isort_ext. intros r r'.
+  unfold keys_leb, keys. rewrite !map_app. cbn [map].
+  rewrite (duplicated_sort_key_comparator_sound ds1 d ds2 _ _ _ _ (k r) (k r') i); auto;
+    try (rewrite map_length; exact Hl); rewrite nth_error_map, Hk; reflexivity.
 Qed.
